@@ -25,8 +25,13 @@ SUITES = {
     # property -> list of (suite of the harness binary, label filter). A suite may serve several
     # properties; a violation belongs to the property whose filter matches its kind / label prefix.
     "C01": [("c01", ("check", "day schedule:"))],
+    "C02": [("c02", ("check", "stream:"))],
+    "C03": [("c03", ("check", ""))],
+    "C04": [("c14", ("panic", "")), ("c01", ("panic", "")), ("c03", ("panic", "")), ("c02", ("panic", "")), ("c08", ("panic", "")), ("c16", ("panic", ""))],
+    "C08": [("c08", ("check", "bounds:"))],
     "C14": [("c14", ("check", ""))],
-    "C17": [("c01", ("check", "comments:"))],
+    "C16": [("c16", ("check", "bound:"))],
+    "C17": [("c01", ("check", "comments:")), ("c02", ("check", "comments:"))],
     "C20": [("c20", ("check", ""))],
 }
 
@@ -319,12 +324,21 @@ def run_property(prop, tier, out, jobs=16):
     max_paths = 60_000 if tier == "quick" else 400_000
     timeout = 900 if tier == "quick" else 4 * 3600
     try:
+        bin_hash = hashlib.sha256(open(binary, "rb").read()).hexdigest()[:20]
         for suite, flt in suites:
             outdir = os.path.join(CACHE, "sym-out", f"{prop}.{suite}.{os.getpid()}")
             shutil.rmtree(outdir, ignore_errors=True)
             os.makedirs(outdir)
+            # Exploration results are a deterministic function of (harness binary, suite, tier, seed):
+            # a result computed by the identical binary (same /repo sources, same harness) is reused.
+            cache_file = os.path.join(CACHE, "sym-results", f"{bin_hash}.{suite}.{tier}.{seed()}.{max_paths}.jsonl")
+            if os.path.exists(cache_file) and os.environ.get("VERIF_NO_CACHE") != "1":
+                shutil.copy(cache_file, os.path.join(outdir, "shard0.jsonl"))
+                reused = True
+            else:
+                reused = False
             procs = []
-            for i in range(jobs):
+            for i in range(0 if reused else jobs):
                 o = os.path.join(outdir, f"shard{i}.jsonl")
                 cmd = [binary, "run", suite, "--tier", tier, "--shard", f"{i}/{jobs}", "--seed", str(seed()),
                        "--max-paths", str(max_paths), "--out", o]
@@ -344,7 +358,18 @@ def run_property(prop, tier, out, jobs=16):
             lst = subprocess.run([binary, "list", suite, "--tier", tier], stdout=subprocess.PIPE, text=True).stdout
             expected = [l.split("\t")[0] for l in lst.splitlines() if l.strip()]
             seen = {}
-            for p, o, lf in procs:
+            outs = [os.path.join(outdir, "shard0.jsonl")] if reused else [o for _, o, _ in procs]
+            if reused:
+                out.coverage.setdefault("suite_results_reused_from_identical_binary", []).append(suite)
+            timed_out = any("timed out" in t for t in out.inconclusive)
+            if not reused and not timed_out:
+                os.makedirs(os.path.dirname(cache_file), exist_ok=True)
+                with open(cache_file + ".tmp", "w") as cf:
+                    for o in outs:
+                        if os.path.exists(o):
+                            cf.write(open(o).read())
+                os.replace(cache_file + ".tmp", cache_file)
+            for o in outs:
                 if not os.path.exists(o):
                     continue
                 for line in open(o):
@@ -431,6 +456,18 @@ def run_property(prop, tier, out, jobs=16):
 
 
 FUNCTIONS = {
+    "C01": ["opening_hours::OpeningHours::schedule_at", "opening_hours::opening_hours::rule_sequence_schedule_at",
+            "opening_hours::filter::time_filter::{time_selector_intervals_at, time_selector_intervals_at_next_day, TimeSpan::as_naive}",
+            "opening_hours::utils::range::{ranges_union, range_intersection}", "opening_hours::schedule::Schedule::{from_ranges, addition, insert}",
+            "opening_hours::filter::date_filter::DaySelector::filter (concrete dates)"],
+    "C02": ["opening_hours::OpeningHours::{iter_range, iter_range_naive, next_change_hint, schedule_at}", "opening_hours::opening_hours::TimeDomainIterator::{new, next, consume_until_next_kind}",
+            "opening_hours::schedule::IntoIter::next", "opening_hours_syntax::rules::OpeningHoursExpression::is_constant", "opening_hours::filter::date_filter::*::next_change_hint (concrete dates)"],
+    "C03": ["opening_hours::OpeningHours::{state, is_open, is_closed, is_unknown, next_change, iter_from}", "opening_hours::opening_hours::TimeDomainIterator::{new, next, consume_until_next_kind}"],
+    "C04": ["every function reached by the suites c14, c01, c02, c03, c08, c16 (a panic on any feasible path is a counterexample)"],
+    "C08": ["opening_hours::OpeningHours::{state, next_change, iter_range, iter_range_naive, next_change_hint, schedule_at}"],
+    "C16": ["opening_hours::opening_hours::TimeDomainIterator::{next, consume_until_next_kind} with Context::approx_bound_interval_size"],
+    "C17": ["opening_hours::schedule::Schedule::{from_ranges, insert}", "opening_hours::schedule::IntoIter::next", "opening_hours_syntax::sorted_vec::UniqueSortedVec::union",
+            "opening_hours::opening_hours::TimeDomainIterator::next"],
     "C14": ["opening_hours::schedule::Schedule::{from_ranges, addition, insert, is_empty}", "opening_hours::schedule::IntoIter::next",
             "opening_hours_syntax::sorted_vec::UniqueSortedVec::union"],
     "C20": ["opening_hours_syntax::sorted_vec::UniqueSortedVec::{from, union, contains, find_first_following}"],
